@@ -216,7 +216,7 @@ PLANS = {
         module='RucteProps.C10',
         extra_modules=['RucteProps.C10Tree', 'RucteProps.C18Order', 'RucteProps.C10Failed', 'RucteProps.C10Abort', 'RucteProps.C10FrameA'],
         needs_tables=['suffixes'],
-        theorems=['Ructe.C10FrameA.stepA_frame', 'Ructe.C10FrameA.failed_templates_call_disturbs_nothingA', 'Ructe.C10Abort.walkA_spec', 'Ructe.C10Abort.walkA_complete', 'Ructe.C10Abort.walkA_cut_prefix', 'Ructe.C10Abort.buildLogA_readable', 'Ructe.C10Abort.runScriptA_noDead', 'Ructe.C10Abort.dead_with_suffix_cuts', 'Ructe.C10Abort.dead_without_suffix_ignored', 'Ructe.C10Failed.failed_templates_call_disturbs_nothing', 'Ructe.C10Failed.failed_templates_call_same_outdir', 'Ructe.C10Failed.failed_static_call_disturbs_nothing', 'Ructe.C10Failed.failed_call_same_names', 'Ructe.C10Failed.step_frame', 'Ructe.C10.others_silent', 'Ructe.C10.valid_template_declared', 'Ructe.C10.broken_template_reported', 'Ructe.C10.subdir_declared', 'Ructe.C10.handleEntries_append', 'Ructe.C10.suffix_table', 'Ructe.C10.tree_mirror_file', 'Ructe.C10.subdir_mod_declared', 'Ructe.C10.template_fn_declared', 'Ructe.C10.decl_only_with_file', 'Ructe.C18.broken_isolated'],
+        theorems=['Ructe.C10FrameA.stepA_frame', 'Ructe.C10FrameA.failed_templates_call_disturbs_nothingA', 'Ructe.C10Abort.walkA_spec', 'Ructe.C10Abort.walkA_complete', 'Ructe.C10Abort.walkA_cut_prefix', 'Ructe.C10Abort.buildLogA_readable', 'Ructe.C10Abort.runScriptA_noDead', 'Ructe.C10Abort.namesAfterA_readable', 'Ructe.C10Abort.templates_leave_statics', 'Ructe.C10Abort.dead_with_suffix_cuts', 'Ructe.C10Abort.dead_without_suffix_ignored', 'Ructe.C10Failed.failed_templates_call_disturbs_nothing', 'Ructe.C10Failed.failed_templates_call_same_outdir', 'Ructe.C10Failed.failed_static_call_disturbs_nothing', 'Ructe.C10Failed.failed_call_same_names', 'Ructe.C10Failed.step_frame', 'Ructe.C10.others_silent', 'Ructe.C10.valid_template_declared', 'Ructe.C10.broken_template_reported', 'Ructe.C10.subdir_declared', 'Ructe.C10.handleEntries_append', 'Ructe.C10.suffix_table', 'Ructe.C10.tree_mirror_file', 'Ructe.C10.subdir_mod_declared', 'Ructe.C10.template_fn_declared', 'Ructe.C10.decl_only_with_file', 'Ructe.C18.broken_isolated'],
         runs=[dict(suite='script', mix='tree', n=dict(quick=200, thorough=1500), projection='script+files+stdout', tags=['C10']),
               # the same promises when OUT_DIR is not empty: earlier builds, restored / renamed templates, residue
               dict(suite='script', mix='history', n=dict(quick=50, thorough=500), projection='script+files', tags=['C10'])],
@@ -283,8 +283,8 @@ PLANS = {
     ),
     'C09': dict(
         module='RucteProps.C09',
-        extra_modules=['RucteProps.C09Hist'],
-        theorems=['Ructe.C09.btree_insert_sorted', 'Ructe.C09.btree_keys', 'Ructe.C09.btree_perm', 'Ructe.C09.get_exact', 'Ructe.C09.get_sound', 'Ructe.C09.get_complete', 'Ructe.C09.staticsLine_lists', 'Ructe.C09.statics_complete', 'Ructe.C09.statics_sorted_nodup', 'Ructe.C09.statics_order_independent', 'Ructe.C09.get_finds_exactly_added'],
+        extra_modules=['RucteProps.C09Hist', 'RucteProps.C09Abort'],
+        theorems=['Ructe.C09Abort.namesAfterA_static_part', 'Ructe.C09Abort.step_statics_congr', 'Ructe.C09.btree_insert_sorted', 'Ructe.C09.btree_keys', 'Ructe.C09.btree_perm', 'Ructe.C09.get_exact', 'Ructe.C09.get_sound', 'Ructe.C09.get_complete', 'Ructe.C09.staticsLine_lists', 'Ructe.C09.statics_complete', 'Ructe.C09.statics_sorted_nodup', 'Ructe.C09.statics_order_independent', 'Ructe.C09.get_finds_exactly_added'],
         runs=[dict(suite='script', mix='statics', n=dict(quick=200, thorough=1500), projection='script+files+names', tags=['C09'], statics_oracle=True),
               dict(suite='script', mix='statics', n=dict(quick=40, thorough=400), projection='script+names', tags=['C09'], args=['--keep'], statics_e2e=dict(quick=24, thorough=200)),
               # STATICS after a build that also compiled stylesheets, some of which failed (oracle added-but-not-in-STATICS)
